@@ -52,6 +52,7 @@ T = {
  "R2-C09-A": ("C09", "table.go tableExp10: lock-free direct-mapped cache (128 slots, key and value in separate atomics)", "concurrent Quantize/RoundToIntegral*/Ceil/Floor with different rescale distances > 128 that are congruent mod 128: a goroutine is handed the wrong power of ten; no data race"),
  "R2-C10-A": ("C10", "bigint.go Quo: 128-by-64-bit inline fast path whose write-back does not reset a heap-backed receiver", "QuoInteger into a destination that still holds a coefficient above 128 bits, dividend of 65..128 bits, divisor below 2^64, quotient at least 2^64: the stale coefficient is returned"),
  "R2-C20-A": ("C20", "decimal.go setExponent: subnormal rounding rewritten with QuoRem, power of ten aliased with the quotient scratch beyond the lookup table", "subnormal inexact result with more than 128 digits dropped at Etiny and a first dropped digit of 1..4 under a nearest mode: rounded up; Round not monotone between representations of different length"),
+ "R2-C11-A": ("C11", "loop.go/context.go: Cbrt's convergence checker comes from a sync.Pool and is recycled with its previous estimate (prevZ) not reset, only after calls at Precision >= 19", "an earlier Cbrt at Precision >= 19 whose second-to-last estimate happens to agree with the current call's first Newton iterate to p+1 digits (probability about 2*10^-(p+1) per call, visible only for p >= 6): NOT detected by any check - each call is correct in isolation and the coincidence cannot be constructed from outside (see DESIGN 8.5)"),
  "R2-C12-A": ("C12", "context.go Pow: one-entry cache of ln(base) keyed on a struct copy of the base that shares its heap big.Int with the caller's operand", "fractional y, base of >= 39 digits, then the same operand object changed in place (same sign, exponent, digit count) and raised again at the same working precision: old_x ** y is returned. Caught by C06's same-object history family (the C12 oracle sees every single call correct on fresh operands)"),
  "R2-C13-A": ("C13", "bigint.go SetString: two-halves uint128 parser for 20..38-digit strings with a wrong carry test (<= instead of <)", "33..38-digit coefficient whose floor(c/10^19) is a non-zero multiple of 2^45 (2^a*10^b with b >= 19, a+b >= 64): parses back 2^64 too large"),
  "R2-C14-A": ("C14", "decimal.go setString: rejects mantissas longer than 200001 characters, counting insignificant leading zeros", "grammatical in-range numeric string of more than 200 KB (redundant leading zeros or all zeros)"),
